@@ -426,7 +426,9 @@ func genC13(t *rapid.T) C13Case {
 		} else if i == 0 {
 			d.Name = "_sync_shadow_app"
 		} else if i == 1 {
-			d.Name = "app" // application DBI; values crafted to look like expired markers
+			// application DBI; values crafted to look like expired markers; whatever its name contains, only
+			// a name that STARTS with the private prefix belongs to Lightning Stream
+			d.Name = rapid.SampledFrom([]string{"app", "app", "zone_sync_state", "jobs_sync", "old_sync_shadow_app", "a_sync"}).Draw(t, "appname")
 			d.Plain = true
 		} else {
 			d.Name = "_sync_shadow_other"
@@ -466,7 +468,7 @@ func genC13(t *rapid.T) C13Case {
 
 func TestC13Sweeper(t *testing.T) {
 	vcore.Run(t, vcore.Config{Property: "C13",
-		Rule: "rapid: 1-3 DBIs x 0-3500 entries from a generated kind pattern (live old/new/ts 0, markers days/10 s older than the cutoff, 10 s younger, now, future, ts 0), retention {0.5, 1, 7, 370, 20000, 36500, 106751} days (the last ones reach back before 1970), lock duration {1 ns => a slice every 1000 records, 1 h}, native and non-native (application DBI holding values that look like expired markers), application writes injected at the between-slices yield point aimed at the last scanned key (rewrite / delete / insert after / expired marker after / random touch), free-running writer in the thorough tier; " +
+		Rule: "rapid: 1-3 DBIs x 0-3500 entries from a generated kind pattern (live old/new/ts 0, markers days/10 s older than the cutoff, 10 s younger, now, future, ts 0), retention {0.5, 1, 7, 370, 20000, 36500, 106751} days (the last ones reach back before 1970), lock duration {1 ns => a slice every 1000 records, 1 h}, native and non-native (application DBI holding values that look like expired markers, under names that may contain but never start with the private prefix), application writes injected at the between-slices yield point aimed at the last scanned key (rewrite / delete / insert after / expired marker after / random touch), free-running writer in the thorough tier; " +
 			"non-trivial = >=1 expired marker, >=1 young marker and >=1 live entry in swept DBIs"},
 		genC13, checkC13)
 }
